@@ -1,20 +1,177 @@
-(* Proofs/ConnOpsAll.v — alignment after a Kafka error for every operation except produce and
-   fetch (which are refuted in ConnOpsWitness / ConnOpsCustom). *)
-From Coq Require Import List NArith ZArith Bool.
+(* Proofs/ConnOpsAll.v — the full statements of C11 and C17 (Conn half) for every operation,
+   negotiated version and well-formed response. *)
+From Coq Require Import List NArith ZArith Bool Lia.
+From Coq Require Import ZifyN ZifyNat ZifyBool.
 From KV Require Import Lib.Bits Lib.Bytes Model.Legacy Model.ConnOps.
-From KV Require Import Proofs.ConnOpsBase Proofs.ConnOpsCodec Proofs.ConnOpsProofs
-  Proofs.ConnOpsWitness Proofs.ConnOpsCustom.
+From KV Require Import Proofs.ConnOpsBase Proofs.ConnOpsCodec Proofs.ConnOpsProofs Proofs.ConnOpsCustom.
 Import ListNotations.
 Open Scope Z_scope.
 
-(* the (operation, version) pairs of Conn other than produce and fetch *)
-Definition aligned_op (a : api) (v : N) : Prop :=
-  schema_api a = true \/ (a = AListOffsets /\ v = 1%N) \/ (a = AApiVersions /\ v = 0%N).
+Lemma is_kafka_true e : is_kafka e = true -> exists c, e = EKafka c.
+Proof. destruct e; cbn; intros H; try discriminate H. eauto. Qed.
 
-Theorem aligned_all_but_produce_fetch a v : aligned_op a v -> aligned_statement a v.
+(* the shape of any exchange whose frame header matches: the correlation counter advanced, and
+   the result is success / a Kafka error, or another error with the Conn closed *)
+Lemma conn_do_frame_shape st o body rest st' r s' :
+  closed st = false -> fits body ->
+  conn_do st o (frame (wrap32 (corr st + 1)) body ++ rest) = (st', r, s') ->
+  corr st' = wrap32 (corr st + 1) /\
+  (done_result r \/ exists e, r = RErr e /\ is_kafka e = false /\ closed st' = true).
 Proof.
-  intros [Hs|[[Ha Hv]|[Ha Hv]]].
-  - apply aligned_schema. exact Hs.
-  - subst. intros w st off code rest st' s'. apply aligned_listoffsets.
-  - subst. intros w st off code rest st' s'. apply aligned_apiversions.
+  intros Hcl Hfit H. rewrite conn_do_unfold in H by exact Hcl. cbv zeta in H.
+  rewrite wait_response_frame in H by (try apply wrap32_in_signed; exact Hfit).
+  destruct (op_read _ _ _ _ _) as [[[x|e] sz1] s2].
+  - inversion H; subst. split; [reflexivity|]. left. apply post_done.
+  - inversion H; subst. split; [reflexivity|].
+    destruct (is_kafka (map_err (op_api o) e)) eqn:Ek.
+    + left. apply is_kafka_true in Ek as [c Hc]. rewrite Hc. exact I.
+    + right. eexists. split; [reflexivity|]. split; [exact Ek|reflexivity].
+Qed.
+
+Lemma negotiated_listoffsets v : negotiated AListOffsets v = true -> v = 1%N.
+Proof. cbn. destruct (N.eqb_spec v 1); [auto|discriminate]. Qed.
+Lemma negotiated_apiversions v : negotiated AApiVersions v = true -> v = 0%N.
+Proof. cbn. destruct (N.eqb_spec v 0); [auto|discriminate]. Qed.
+
+(* one exchange on a well-formed frame: either the operation is done (success or Kafka error),
+   the reader sits exactly behind its frame and the Conn is open, or it failed otherwise and
+   the Conn is closed *)
+Theorem wf_step st a v off w rest st' r s' :
+  negotiated a v = true -> well_formed a v w -> fits (enc (resp_ty a v) w) -> closed st = false ->
+  conn_do st (mkOp a v off) (frame (wrap32 (corr st + 1)) (enc (resp_ty a v) w) ++ rest) = (st', r, s') ->
+  corr st' = wrap32 (corr st + 1) /\
+  ((done_result r /\ s' = rest /\ closed st' = false) \/
+   (exists e, r = RErr e /\ is_kafka e = false /\ closed st' = true)).
+Proof.
+  intros Hneg Hwf Hfit Hcl H.
+  destruct (conn_do_frame_shape _ _ _ _ _ _ _ Hcl Hfit H) as [Hcorr Hshape].
+  split; [exact Hcorr|].
+  destruct Hshape as [Hdone|Herr]; [left|right; exact Herr].
+  split; [exact Hdone|].
+  assert (Hgen : a <> AApiVersions -> a <> AListOffsets -> s' = rest /\ closed st' = false).
+  { intros Ha Hl.
+    assert (Hr : match r with ROk _ => True | RErr (EKafka _) => op_api (mkOp a v off) <> AListOffsets | _ => False end).
+    { destruct r as [x|e]; [exact I|]. destruct e; try contradiction. exact Hl. }
+    destruct (frame_exact st (mkOp a v off) _ _ _ _ Hcl Ha H Hr) as [Hc Hcl'].
+    split; [eapply consumed_frame_frame; eassumption|exact Hcl']. }
+  destruct a; try (apply Hgen; discriminate).
+  - (* list-offsets *)
+    apply negotiated_listoffsets in Hneg. subst v.
+    destruct (wf_listoffsets w Hwf) as (name & part & Hw & Hn & Hp). subst w.
+    destruct (conn_do_listoffsets_frame st off name part rest Hn Hp Hfit Hcl) as (r0 & E & _).
+    rewrite E in H. inversion H; subst. split; reflexivity.
+  - (* ApiVersions *)
+    apply negotiated_apiversions in Hneg. subst v.
+    destruct (conn_do_apiversions_frame st off w rest Hwf Hfit Hcl) as (st0 & r0 & E & Hopen & _).
+    rewrite E in H. inversion H; subst. split; [reflexivity|]. apply Hopen. exact Hdone.
+Qed.
+
+(* ---- C11: aligned after a Kafka error, EVERY operation ---- *)
+Theorem aligned_full a v w st off code rest st' s' :
+  negotiated a v = true ->
+  well_formed a v w -> fits (enc (resp_ty a v) w) -> closed st = false ->
+  conn_do st (mkOp a v off) (frame (wrap32 (corr st + 1)) (enc (resp_ty a v) w) ++ rest)
+    = (st', RErr (EKafka code), s') ->
+  s' = rest /\ closed st' = false.
+Proof.
+  intros Hneg Hwf Hfit Hcl H.
+  destruct (wf_step _ _ _ _ _ _ _ _ _ Hneg Hwf Hfit Hcl H) as [_ [[_ Hok]|(e & He & Hk & _)]].
+  - exact Hok.
+  - inversion He; subst e. discriminate Hk.
+Qed.
+
+Theorem next_as_fresh a v w st off code rest st' s' o2 :
+  negotiated a v = true ->
+  well_formed a v w -> fits (enc (resp_ty a v) w) -> closed st = false ->
+  conn_do st (mkOp a v off) (frame (wrap32 (corr st + 1)) (enc (resp_ty a v) w) ++ rest)
+    = (st', RErr (EKafka code), s') ->
+  conn_do st' o2 s' = conn_do (mkConn false (wrap32 (corr st + 1)) (cfg_topic st) (offset st')) o2 rest.
+Proof.
+  intros Hneg Hwf Hfit Hcl H.
+  destruct (aligned_full _ _ _ _ _ _ _ _ _ Hneg Hwf Hfit Hcl H) as [Hs Hcl'].
+  destruct (conn_do_frame_shape _ _ _ _ _ _ _ Hcl Hfit H) as [Hcorr _].
+  subst s'. f_equal.
+  assert (Ht : cfg_topic st' = cfg_topic st).
+  { rewrite conn_do_unfold in H by exact Hcl. cbv zeta in H.
+    destruct (wait_response _ _) as [[[size|e0] s1] cl].
+    - destruct (op_read _ _ _ _ _) as [[[x|e1] sz1] s2]; inversion H; reflexivity.
+    - inversion H; reflexivity. }
+  destruct st' as [c1 c2 c3 c4]. cbn in *. subst. reflexivity.
+Qed.
+
+(* ---- C11: runs over well-formed frames ---- *)
+Fixpoint script_stream (c : Z) (l : list (op * wval)) {struct l} : list N :=
+  match l with
+  | [] => []
+  | (o, w) :: r =>
+      frame (wrap32 (c + 1)) (enc (resp_ty (op_api o) (op_ver o)) w) ++ script_stream (wrap32 (c + 1)) r
+  end.
+Definition script_ok (l : list (op * wval)) : Prop :=
+  Forall (fun ow => negotiated (op_api (fst ow)) (op_ver (fst ow)) = true /\
+                    well_formed (op_api (fst ow)) (op_ver (fst ow)) (snd ow) /\
+                    fits (enc (resp_ty (op_api (fst ow)) (op_ver (fst ow))) (snd ow))) l.
+
+Theorem run_aligned l : forall st rest st' rs s',
+  closed st = false -> script_ok l ->
+  conn_run st (map fst l) (script_stream (corr st) l ++ rest) = (st', rs, s') ->
+  closed st' = true \/ (s' = rest /\ closed st' = false /\ Forall done_result rs).
+Proof.
+  induction l as [|[o w] l IH]; intros st rest st' rs s' Hcl Hok H; cbn [map fst conn_run script_stream] in H.
+  - inversion H; subst. right. cbn. auto.
+  - apply Forall_cons_iff in Hok as [(Hneg & Hwf & Hfit) Hok]. cbn [fst snd] in *.
+    rewrite <- app_assoc in H.
+    destruct (conn_do st o _) as [[st1 r1] s1] eqn:E1.
+    destruct (conn_run st1 (map fst l) s1) as [[st2 rs2] s2] eqn:E2.
+    inversion H; subst st' rs s'.
+    assert (Ho : o = mkOp (op_api o) (op_ver o) (op_off o)) by (destruct o; reflexivity).
+    rewrite Ho in E1.
+    destruct (wf_step _ _ _ _ _ _ _ _ _ Hneg Hwf Hfit Hcl E1) as [Hcorr [(Hd & Hs & Hcl1)|(e & He & Hk & Hcl1)]].
+    + subst s1. rewrite <- Hcorr in E2.
+      destruct (IH _ _ _ _ _ Hcl1 Hok E2) as [Hc|(Hs2 & Hc2 & Hall)]; [left; exact Hc|].
+      right. split; [exact Hs2|]. split; [exact Hc2|]. constructor; assumption.
+    + left. destruct (closed_run st1 (map fst l) s1 Hcl1) as (st3 & E3 & Hc3).
+      rewrite E3 in E2. inversion E2; subst. exact Hc3.
+Qed.
+
+(* ---- C17 (Conn half): every operation, every well-formed response, every cut ---- *)
+Lemma frame_length id body : length (frame id body) = (8 + length body)%nat.
+Proof. unfold frame. rewrite !app_length, !put_bes_length. lia. Qed.
+Lemma frame_announced id body : fits body ->
+  get_bes 4 (firstn 4 (frame id body)) - 4 = Z.of_nat (length body).
+Proof.
+  intros Hfit. unfold fits, ZM31 in Hfit. unfold frame.
+  rewrite firstn_exact by apply put_bes_length.
+  rewrite get_put_bes by (try lia; unfold in_signed, pow256; cbn; lia). lia.
+Qed.
+
+Theorem conn_cut_full st a v off w k :
+  negotiated a v = true -> well_formed a v w -> fits (enc (resp_ty a v) w) -> closed st = false ->
+  (k < length (frame (wrap32 (corr st + 1)) (enc (resp_ty a v) w)))%nat ->
+  exists e st2 s2,
+    conn_do st (mkOp a v off) (firstn k (frame (wrap32 (corr st + 1)) (enc (resp_ty a v) w)))
+      = (st2, RErr e, s2) /\ is_kafka e = false /\ closed st2 = true.
+Proof.
+  intros Hneg Hwf Hfit Hcl Hk.
+  set (body := enc (resp_ty a v) w) in *. set (id := wrap32 (corr st + 1)) in *.
+  destruct (conn_do st (mkOp a v off) (frame id body)) as [[st' r] s'] eqn:E.
+  assert (E' : conn_do st (mkOp a v off) (frame id body ++ []) = (st', r, s')) by (rewrite app_nil_r; exact E).
+  destruct (wf_step _ _ _ _ _ _ _ _ _ Hneg Hwf Hfit Hcl E') as [_ Hstep].
+  destruct (Nat.lt_ge_cases (k + length s') (length (frame id body))) as [Hlt|Hge].
+  - destruct (conn_do_cut _ _ _ _ _ _ k Hcl E Hlt) as (e & st2 & s2 & E2 & Ht & Hc2).
+    exists e, st2, s2. split; [exact E2|]. split; [apply transport_not_kafka; exact Ht|exact Hc2].
+  - destruct Hstep as [(_ & Hs & _)|(e & He & Hke & Hce)]; [subst s'; cbn [length] in Hge; lia|].
+    (* the complete exchange already failed before the cut position: same outcome *)
+    assert (Hs'len : (length s' <= length body)%nat).
+    { rewrite conn_do_unfold in E by exact Hcl. cbv zeta in E.
+      pose proof (wait_response_frame id body [] (wrap32_in_signed _) Hfit) as Ew.
+      rewrite !app_nil_r in Ew. fold id in E. rewrite Ew in E.
+      destruct (op_read _ _ _ _ _) as [[ra sz1] s2] eqn:Er.
+      destruct (good_op_read _ _ _ _ _ _ _ _ Er) as (c & Hc & _).
+      assert (s' = s2) by (destruct ra; inversion E; reflexivity). subst s2.
+      rewrite Hc, app_length. lia. }
+    rewrite frame_length in Hge, Hk.
+    destruct (conn_do_cut_beyond _ _ _ _ _ _ k Hcl ltac:(lia) E) as (s2 & E2).
+    + rewrite frame_announced by exact Hfit. rewrite frame_length. lia.
+    + rewrite frame_length. exact Hge.
+    + subst r. exists e, st', s2. auto.
 Qed.
